@@ -259,7 +259,7 @@ CHECKS = {
         level="exploration",
         jobs=jobs_c01,
         rule="seeded random histories (20-80 ops over <=16 live objects of 12 kinds, all collection methods incl. single-object steps, 4 pacing modes) plus the barrier scenario matrix; a history is non-trivial when it stored a pointer while the arena was not Sleeping and a later collection released something; distinct = distinct op lists (FNV hash)",
-        floors={"evaluations": {Q: 50_000, T: 500_000}, "derefs_checked": 100_000, "free_events": 10_000, "callbacks_with_gray_queue_over_128": 100, "max_gray_queue_seen": 257, "max_gray_again_seen": 257},
+        floors={"evaluations": {Q: 50_000, T: 500_000}, "derefs_checked": 100_000, "free_events": 10_000, "hook:callbacks_with_gray_queue_over_128": 100, "hook:max_gray_queue_seen": 257, "hook:max_gray_again_seen": 257},
         assumptions=COMMON_ASSUME,
     ),
     "C02": dict(
